@@ -36,6 +36,28 @@ type PfxSpec struct {
 	Metric uint32 `json:"metric"`
 	Len    uint8  `json:"len"`
 	Addr   uint32 `json:"addr"`
+	// flag bits of the control octet (RFC 5305 3.2): up/down (0x80, a prefix leaked down a level) and
+	// "sub-TLVs present" (0x40)
+	Down   bool `json:"down,omitempty"`
+	SubBit bool `json:"sub,omitempty"`
+}
+
+// Ctl is the control octet handed to packet.NewExtendedIPReachability.
+func (p PfxSpec) Ctl() uint8 {
+	c := p.Len & 0x3f
+	if p.Down {
+		c |= 0x80
+	}
+	if p.SubBit {
+		c |= 0x40
+	}
+	return c
+}
+
+// IfPfxSpec is one interface prefix (address + prefix length) an IP interface addresses TLV is built from.
+type IfPfxSpec struct {
+	Addr uint32 `json:"addr"`
+	Len  uint8  `json:"len"`
 }
 
 type PDUSpec struct {
@@ -55,6 +77,10 @@ type PDUSpec struct {
 	// hello + lsp
 	Protos []uint8  `json:"protos,omitempty"`
 	Addrs  int      `json:"addrs,omitempty"` // number of IPv4 interface addresses
+	// IfPfxs, when set, is the explicit interface prefix list (len == Addrs): several prefix lengths, and the
+	// same address more than once (192.0.2.1/24 and 192.0.2.1/32 on one interface, one address shared by
+	// unnumbered interfaces)
+	IfPfxs []IfPfxSpec `json:"if_pfxs,omitempty"`
 	Areas  [][]byte `json:"areas,omitempty"`
 	// lsp
 	PN, Frag  uint8     `json:"-"`
@@ -95,6 +121,25 @@ func GenPDUSpec(rng *rand.Rand, i int) PDUSpec {
 		}
 		return rng.IntN(small + 1)
 	}
+	// interface prefix list: one time in three an explicit list drawn with replacement from a small pool of
+	// addresses under several prefix lengths, so that addresses repeat
+	ifPfxs := func(n int) []IfPfxSpec {
+		if n == 0 || rng.IntN(3) != 0 {
+			return nil
+		}
+		if n > 40 {
+			n = 40
+		}
+		pool := make([]uint32, 1+rng.IntN(n))
+		for j := range pool {
+			pool[j] = 0xc0000201 + uint32(rng.IntN(4))<<16 + uint32(j)<<8
+		}
+		out := make([]IfPfxSpec, n)
+		for j := range out {
+			out[j] = IfPfxSpec{Addr: pool[rng.IntN(len(pool))], Len: []uint8{8, 16, 24, 30, 31, 32}[rng.IntN(6)]}
+		}
+		return out
+	}
 	switch i % 4 {
 	case 0:
 		s.Kind = "hello"
@@ -106,6 +151,9 @@ func GenPDUSpec(rng *rand.Rand, i int) PDUSpec {
 		s.TWExt, s.TWNbrCirc = rng.Uint32(), rng.Uint32()
 		s.Protos = [][]uint8{{0xcc, 0x8e}, {0xcc}, {}, {0xcc, 0x8e, 0x81}}[rng.IntN(4)]
 		s.Addrs = count(3, 70)
+		if s.IfPfxs = ifPfxs(s.Addrs); s.IfPfxs != nil {
+			s.Addrs = len(s.IfPfxs)
+		}
 		s.Areas = areas()
 		for k := rng.IntN(3); k > 0; k-- {
 			s.Pad = append(s.Pad, rng.IntN(256))
@@ -119,14 +167,19 @@ func GenPDUSpec(rng *rand.Rand, i int) PDUSpec {
 		s.TypeBlock = uint8(rng.IntN(256))
 		s.Protos = [][]uint8{{0xcc, 0x8e}, {0xcc}}[rng.IntN(2)]
 		s.Addrs = count(4, 70)
+		if s.IfPfxs = ifPfxs(s.Addrs); s.IfPfxs != nil {
+			s.Addrs = len(s.IfPfxs)
+		}
 		s.Areas = areas()
+		// half of the LSPs carry prefixes with the up/down bit, one in eight prefixes with the sub-TLV bit
+		downs, subs := rng.IntN(2) == 0, rng.IntN(8) == 0
 		for k := count(5, 40); k > 0; k-- {
 			l := uint8(rng.IntN(33))
 			a := rng.Uint32()
 			if l < 32 {
 				a &^= (1 << (32 - l)) - 1
 			}
-			s.Pfxs = append(s.Pfxs, PfxSpec{Metric: rng.Uint32(), Len: l, Addr: a})
+			s.Pfxs = append(s.Pfxs, PfxSpec{Metric: rng.Uint32(), Len: l, Addr: a, Down: downs && rng.IntN(3) == 0, SubBit: subs && rng.IntN(3) == 0})
 		}
 		for k := count(3, 12); k > 0; k-- {
 			s.Nbrs = append(s.Nbrs, NbrSpec{Sys: SysID{1, 2, 3, 4, 5, uint8(k)}, PN: uint8(rng.IntN(2)), Metric: uint32(rng.IntN(1 << 24)),
@@ -185,7 +238,9 @@ type BuiltPDU struct {
 	Type   uint8
 	Body   packet.Serializable
 	Expect []byte
-	Note   string
+	// ExpectAlt, when set, is a second encoding of the same content the statement allows as well
+	ExpectAlt []byte
+	Note      string
 }
 
 func hdrFor(typ uint8) *packet.ISISHeader {
@@ -212,6 +267,27 @@ func BuildFromSpec(s PDUSpec) []BuiltPDU {
 	for i, a := range addrs {
 		pfxs[i] = bnet.NewPfx(bnet.IPv4(a), 24).Ptr()
 	}
+	// uniq: the addresses without repetitions (nil if none repeats). Whether an address configured twice is
+	// announced twice or once is bio-rd's choice; both encodings are the same content.
+	var uniq []uint32
+	note := ""
+	if len(s.IfPfxs) > 0 {
+		addrs, pfxs = nil, nil
+		seen := map[uint32]bool{}
+		for _, p := range s.IfPfxs {
+			addrs = append(addrs, p.Addr)
+			pfxs = append(pfxs, bnet.NewPfx(bnet.IPv4(p.Addr), p.Len).Ptr())
+			if !seen[p.Addr] {
+				seen[p.Addr] = true
+				uniq = append(uniq, p.Addr)
+			}
+		}
+		if len(uniq) == len(addrs) {
+			uniq = nil
+		} else {
+			note = "repeated-if-addr"
+		}
+	}
 	switch s.Kind {
 	case "hello":
 		h := &packet.P2PHello{CircuitType: s.CircuitType, SystemID: types.SystemID(s.Sys), HoldingTimer: s.Hold, PDULength: packet.P2PHelloMinLen, LocalCircuitID: s.LocalCirc}
@@ -237,9 +313,14 @@ func BuildFromSpec(s PDUSpec) []BuiltPDU {
 			h.TLVs = append(h.TLVs, packet.NewPaddingTLV(uint8(p)))
 			mine = append(mine, PaddingTLV(p))
 		}
-		b := BuiltPDU{Type: PDUP2PHello, Body: h}
+		b := BuiltPDU{Type: PDUP2PHello, Body: h, Note: note}
 		if fits(mine) {
 			b.Expect = BuildHello(Hello{CircuitType: s.CircuitType, Sys: s.Sys, Hold: s.Hold, LocalCircuit: s.LocalCirc, TLVs: mine})
+			if uniq != nil {
+				alt := append([]TLV{}, mine...)
+				alt[2] = IPIfAddrTLV(uniq...)
+				b.ExpectAlt = BuildHello(Hello{CircuitType: s.CircuitType, Sys: s.Sys, Hold: s.Hold, LocalCircuit: s.LocalCirc, TLVs: alt})
+			}
 		} else {
 			b.Note = "tlv-overflow"
 		}
@@ -248,9 +329,16 @@ func BuildFromSpec(s PDUSpec) []BuiltPDU {
 		l := &packet.LSPDU{RemainingLifetime: s.Life, LSPID: packet.LSPID{SystemID: types.SystemID(s.Sys)}, SequenceNumber: s.Seq, TypeBlock: s.TypeBlock}
 		eip := packet.NewExtendedIPReachabilityTLV()
 		var mp []ExtIPPfx
+		subBit := false
 		for _, p := range s.Pfxs {
-			eip.AddExtendedIPReachability(packet.NewExtendedIPReachability(p.Metric, p.Len, p.Addr))
-			mp = append(mp, ExtIPPfx{Metric: p.Metric, Len: p.Len, Addr: p.Addr})
+			eip.AddExtendedIPReachability(packet.NewExtendedIPReachability(p.Metric, p.Ctl(), p.Addr))
+			mp = append(mp, ExtIPPfx{Metric: p.Metric, Len: p.Len, Addr: p.Addr, Down: p.Down})
+			if p.Down || p.SubBit {
+				if !strings.Contains(note, "ext-ip-flag-bits") {
+					note = strings.TrimPrefix(note+"+ext-ip-flag-bits", "+")
+				}
+			}
+			subBit = subBit || p.SubBit
 		}
 		eis := packet.NewExtendedISReachabilityTLV()
 		var mn []ExtISNbr
@@ -291,9 +379,18 @@ func BuildFromSpec(s PDUSpec) []BuiltPDU {
 		}
 		l.UpdateLength()
 		l.SetChecksum()
-		b := BuiltPDU{Type: PDUL2LSP, Body: l}
-		if fits(mine) {
+		b := BuiltPDU{Type: PDUL2LSP, Body: l, Note: note}
+		if fits(mine) && subBit {
+			// bio-rd has no sub-TLV support for prefixes yet (it writes the control octet as given and no
+			// sub-TLV length octet) and decodes TLV 135 as opaque octets: there is no reference encoding to
+			// compare with; the statement's round trip through Serialize/Decode is judged all the same
+		} else if fits(mine) {
 			b.Expect = BuildLSP(LSP{Lifetime: s.Life, ID: MkLSPID(s.Sys, 0, 0), Seq: s.Seq, TypeBlock: s.TypeBlock, TLVs: mine})
+			if uniq != nil {
+				alt := append([]TLV{}, mine...)
+				alt[2] = IPIfAddrTLV(uniq...)
+				b.ExpectAlt = BuildLSP(LSP{Lifetime: s.Life, ID: MkLSPID(s.Sys, 0, 0), Seq: s.Seq, TypeBlock: s.TypeBlock, TLVs: alt})
+			}
 		} else {
 			b.Note = "tlv-overflow"
 			for _, t := range mine {
@@ -469,10 +566,21 @@ func RoundTripBuilt(p BuiltPDU, out *Outcome, witness *Case) {
 			}
 			x[24], x[25], y[24], y[25] = 0, 0, 0, 0
 		}
-		if !bytes.Equal(x, y) {
+		same := bytes.Equal(x, y)
+		if !same && p.ExpectAlt != nil && len(p.ExpectAlt) >= 27 {
+			z := append([]byte{}, p.ExpectAlt...)
+			if p.Type == PDUL2LSP {
+				z[24], z[25] = 0, 0
+			}
+			same = bytes.Equal(x, z)
+		}
+		if !same {
 			viol("encoding", feat(), "bio-rd serialises %x, an independent ISO 10589 encoder produces %x for the same content", b1, p.Expect)
 			return
 		}
+		out.Count("reference_encodings_compared", 1)
+	} else if p.Type == PDUL2LSP || p.Type == PDUP2PHello {
+		out.Count("roundtrips_without_reference_encoding", 1)
 	}
 	roundTripRaw(name, "generated", p.Note, b1, p.Body, out, witness)
 }
@@ -712,7 +820,34 @@ func RunSpec(s PDUSpec, out *Outcome) {
 	if (s.Kind == "csnp" || s.Kind == "psnp") && len(out.V) == nv {
 		CheckSNPSet(s, built, out, w)
 	}
+	nd, ns, rep := 0, 0, 0
+	for _, p := range s.Pfxs {
+		if p.Down {
+			nd++
+		}
+		if p.SubBit {
+			ns++
+		}
+	}
+	seen := map[uint32]bool{}
+	for _, p := range s.IfPfxs {
+		if seen[p.Addr] {
+			rep++
+		}
+		seen[p.Addr] = true
+	}
+	out.Count("ext_ip_entries_updown_bit", nd)
+	out.Count("ext_ip_entries_subtlv_bit", ns)
+	if nd+ns > 0 {
+		out.Count("lsps_with_ext_ip_flag_bits", 1)
+	}
+	if rep > 0 {
+		out.Count(s.Kind+"s_with_repeated_if_addr", 1)
+	}
 	key := fmt.Sprintf("%s/%d/%d/%d/%d/%d/%v", s.Kind, s.Addrs, len(s.Pfxs), len(s.Nbrs), len(s.Host), s.N, s.TWNbr)
+	if nd+ns+rep > 0 {
+		key += fmt.Sprintf("/%d/%d/%d", nd, ns, rep)
+	}
 	out.Nontrivial = append(out.Nontrivial, key)
 }
 
@@ -940,12 +1075,13 @@ type BigLSPCase struct {
 	Ifaces int `json:"ifaces"` // number of interfaces
 	Extra  int `json:"extra"`  // additional addresses per interface
 	Up     int `json:"up"`     // interfaces with an Up neighbor
+	Dup    int `json:"dup,omitempty"` // addresses per interface that are configured twice (as /31 or /24 and as /32)
 }
 
 func RunBigLSP(c BigLSPCase, emit func(Sent)) {
 	cfg := Cfg{Sys: dutSys, Area: dutArea, NoStart: true}
 	for i := 0; i < c.Ifaces; i++ {
-		cfg.Ifaces = append(cfg.Ifaces, IfCfg{Name: fmt.Sprintf("eth%d", i), Hello: 10, Hold: 30, Metric: 10, Index: uint64(10 + i), Net: 0x0a000000 + uint32(i)<<8, Extra: c.Extra})
+		cfg.Ifaces = append(cfg.Ifaces, IfCfg{Name: fmt.Sprintf("eth%d", i), Hello: 10, Hold: 30, Metric: 10, Index: uint64(10 + i), Net: 0x0a000000 + uint32(i)<<8, Extra: c.Extra, Dup: c.Dup})
 	}
 	h, err := New(cfg)
 	if err != nil {
